@@ -111,8 +111,20 @@ func GenerateCases(seed int64, n, blocks int, outPath, scratch, jsonPath, profil
 					// restart after blocks that changed the validator set or carried transactions, and some others
 					bi := int(b.Height) - 1
 					interesting := bi < len(h.Obs) && (len(h.Obs[bi].ValUpdates) > 0 || len(b.Txs) > 2)
-					if (interesting && rr.Intn(3) == 0) || rr.Intn(12) == 0 {
+					if (interesting && rr.Intn(2) == 0) || rr.Intn(6) == 0 {
 						rs[b.Height] = true
+					}
+					// always: while something is in flight across blocks — a stake was just released
+					// (it is unbonding until its refund height), a proposal was frozen, evidence arrived
+					if bi < len(h.Obs) {
+						for ti, t := range b.Txs {
+							if t.Spec.Type == 3 && ti < len(h.Obs[bi].Delivers) && h.Obs[bi].Delivers[ti].Code == 0 {
+								rs[b.Height] = true
+							}
+						}
+						if len(b.Evidence) > 0 {
+							rs[b.Height] = true
+						}
 					}
 					// always: after a block that applied a governance proposal (the parameters in force
 					// change at that commit), and at every boundary of the short scripted histories
@@ -174,6 +186,14 @@ func GenerateCases(seed int64, n, blocks int, outPath, scratch, jsonPath, profil
 			ats := []int{1 + rr.Intn(len(h.Blocks)-2)}
 			if len(h.Blocks) > 10 {
 				ats = append(ats, 9)
+			}
+			// and one block whose EndBlock announces validator changes (what a restarted node must
+			// know about the previous block shows there), if the history has one
+			for at := 2; at < len(h.Blocks)-1 && at < len(h.Obs); at++ {
+				if len(h.Obs[at].ValUpdates) > 0 && at != ats[0] && at != 9 {
+					ats = append(ats, at)
+					break
+				}
 			}
 			for _, at := range ats {
 				outs, cerr := CrashExperiment(h, at, scratch, fmt.Sprintf("crash-%d-%d", i, at))
